@@ -31,6 +31,7 @@ type runner struct {
 	// monitor bookkeeping per module and oracle: removed by governance since it bonded / add-delegate accepted after that
 	removed []map[int]bool
 	readded []map[int]bool
+	joined  []map[int]int64
 }
 
 func newRunner(seed int64, modules []string, rep *lib.Report) *runner {
@@ -41,6 +42,7 @@ func newRunner(seed int64, modules []string, rep *lib.Report) *runner {
 		r.pre = append(r.pre, v)
 		r.removed = append(r.removed, map[int]bool{})
 		r.readded = append(r.readded, map[int]bool{})
+		r.joined = append(r.joined, map[int]int64{})
 		m.view0 = v.coq()
 		m.initArg = fmt.Sprintf("%d %d %d %s %d %s %d", v.Height, int64(r.w.c.Ctx.BlockTime().Sub(lib.GenesisTime).Seconds()),
 			r.w.ubtime, v.Threshold, v.Multiple, v.Fraction, v.Window)
@@ -76,14 +78,18 @@ func (r *runner) do(op Op) (class int) {
 				}
 			case "bond":
 				r.removed[a.mod][op.A], r.readded[a.mod][op.A] = false, false
+				r.joined[a.mod][op.A] = pre.Height
 			case "add":
 				if r.removed[a.mod][op.A] {
 					r.readded[a.mod][op.A] = true
 				}
+				if r0 := pre.rec(op.A); r0 != nil && !r0.Online {
+					r.joined[a.mod][op.A] = pre.Height
+				}
 			}
 		}
 		var vio []violation
-		vio = append(vio, checkStep(op, a.class, r.pre[a.mod], post)...)
+		vio = append(vio, checkStep(op, a.class, r.pre[a.mod], post, r.joined[a.mod])...)
 		vio = append(vio, checkState(post, r.readded[a.mod])...)
 		for _, v := range vio {
 			key := fmt.Sprintf("%s/%d/%s", v.sig, a.mod, strings.SplitN(v.what, ":", 2)[0])
@@ -137,9 +143,9 @@ func main() {
 		replay(rep)
 		return
 	}
-	n := 40
+	n := 32
 	if lib.Tier() == "thorough" {
-		n = 400
+		n = 250
 	}
 	if mode == "search" {
 		n = 150
